@@ -452,7 +452,10 @@ func CalculateBestCacheSize(argb []uint32, quality int, refs *BackwardRefs, cach
 		ls := histogramNumCodes(i)
 		histoSlab[i].Literal = litSlab[litOff : litOff+ls : litOff+ls]
 		histoSlab[i].paletteCodeBits = i
-		histoSlab[i].resetStats()
+		// The slab may be reused from a previous call: Clear also zeroes the
+		// red/blue/alpha/distance counters (resetStats alone would keep the
+		// previous image's counts and bias the cache-size estimate).
+		histoSlab[i].Clear()
 		histos[i] = &histoSlab[i]
 		litOff += ls
 	}
